@@ -9,14 +9,30 @@ Part S  structure: every hierarchy of n classes (bases = any MRO-consistent orde
         True / False / ordered list of earlier classes), every class declaring its own files,
         x every order (n <= 3 and the small n = 4 alphabet in thorough) or every choice of
         the first accessed class (+ descending order) of `.media` on classes and instances.
-Part L  lists: every hierarchy n <= 3 (+ all single-sink n = 4 in thorough) in which every
-        class declares an ordered sub-list of a shared pool (css mirrored: "all" same order,
-        "print" reversed) - duplicates and the order clause.
+Part L  lists: every hierarchy n <= 3 in which every class declares an ordered sub-list (<= 2
+        entries) of a shared pool (2 files in quick, 3 in thorough; css mirrored: "all" same
+        order, "print" reversed) - duplicates and the order clause.  n = 4 (>= 3 levels on one
+        branch + a sibling base, diamonds, chains with shortcuts, ...): every single-sink
+        hierarchy with <= 2 bases per class and extend = True x every 4-tuple of sub-lists of
+        a 3-file pool, modulo two symmetries: renaming of the pool (kept: files first used in
+        the order 0, 1, 2 - 1 675 of the 10 000 tuples) and, in quick only, the creation order
+        of unrelated classes (12 of the 20 creation-ordered shapes); VERIF_SEED rotates the
+        representative (which renaming / which creation order).  Read ancestors-first and
+        sink-first.  Thorough also keeps the unreduced pool-2 product over the 20 shapes.
 Part F  forms: all js forms x all css forms (absent, empty, str, list, dict of str / list,
         all+print) on one class and on parent x child (extend True / False) + rendered tags.
 Part P  pair rule: template/js/css x {absent, inline (incl. ""), file} per class - the full
         27^n product for n <= 2 and per-pair products for n = 3 (4 in thorough) over every
         shape, two opposite access sweeps; "both members in one class" must be rejected.
+Part A  partial access orders of the pair attributes: per class and pair {absent, inline,
+        file} (3^n states); a visit of a class reads one kind of member ({template, js, css}
+        on the class / the three *_file members on the class / {template, js, css} on an
+        instance); every order of the n classes is visited and every read is checked when it
+        happens, so the prefixes are all ordered subsets of the classes - in particular "top,
+        then bottom, the overriding middle class never touched".  n = 3: all shapes (chain:
+        all 3^3 kind assignments, other shapes one kind throughout; thorough: all assignments
+        everywhere); n = 4: the chain, one kind throughout (thorough: all 3^4 assignments, +
+        every other single-sink shape with <= 2 bases, + the n = 5 chain, one kind throughout).
 Part H  histories: for every hierarchy with n <= 2 (n = 3 in thorough; <= 2 bases, extend lists of one
         class) x 3 assignments of inline / file / absent pair members, BFS to a fixpoint over all accesses
         (.media/.template/.js/.css/.*_file on class, .media/.template/.js/.css on instance),
@@ -961,6 +977,118 @@ def _worker_pairs(w, W, payload):
     return agg
 
 
+# ------------------------------------------------------------------ part A: partial first-access orders of the pair attributes
+A_KINDS = {
+    "ci": [(a, "cls") for a in ("template", "js", "css")],  # inline members read on the class
+    "cf": [(a, "cls") for a in ("template_file", "js_file", "css_file")],  # file members read on the class
+    "in": [(a, "inst") for a in ("template", "js", "css")],  # inline members read on an instance
+}
+
+
+def chain_shape(n):
+    return tuple(() if i == 0 else (i - 1,) for i in range(n))
+
+
+def a_visit_seqs(n, mode):
+    """Every order of the n classes x a kind of read per visited class ("all": every assignment of kinds to the
+    positions, "uniform": the same kind at every position).  Each read is checked when it happens, so the prefixes of
+    these sequences are exactly all ordered subsets of the classes: every choice of which classes have been touched
+    (and in which order) before a given class is read for the first time."""
+    kinds = sorted(A_KINDS)
+    for perm in itertools.permutations(range(n)):
+        if mode == "all":
+            assignments = itertools.product(kinds, repeat=n)
+        else:
+            assignments = [[k] * n for k in kinds]
+        for ks in assignments:
+            yield [[c, k] for c, k in zip(perm, ks)]
+
+
+def a_stream(mark, tier):
+    """(spec, n, mode): per class one state in {absent, inline, file} for each pair (the pairs of one class are
+    shifted against each other, so each pair sees the full 3^n product; part P has the cross-pair product)."""
+    plan = []
+    for shape in shapes(3, 3):
+        plan.append((shape, "all" if (tier != "quick" or shape == chain_shape(3)) else "uniform"))
+    if tier == "quick":
+        plan.append((chain_shape(4), "uniform"))
+    else:
+        plan.append((chain_shape(4), "all"))
+        plan += [(s, "uniform") for s in shapes(4, 2) if single_sink(s) and s != chain_shape(4)]
+        plan.append((chain_shape(5), "uniform"))
+    for shape, mode in plan:
+        n = len(shape)
+        for states in itertools.product(range(3), repeat=n):
+            yield p_spec(mark, shape, states, 0), n, mode
+
+
+def run_access_case(agg, idx, spec, seqs, verbose=False):
+    """One hierarchy, many visit sequences (a fresh set of real classes for each)."""
+    n = len(spec["classes"])
+    agg.states += 1
+    first = {}
+    measured = False
+    for seq_ in seqs:
+        w = World(spec)
+        if w.error:
+            agg.fail(f"A/create/n={n}", f"[A] creating class {w.error[0]} raised {w.error[1]!r} although no class defines both members of a pair",
+                     {"part": "A", "idx": idx, "spec": spec, "seqs": [seq_]})
+            w.close()
+            return False
+        if not measured:
+            measured = True
+            shadow = False
+            for i in range(n):
+                for inl, _ in PAIRS:
+                    definers = [w.model.idx[c] for c in w.classes[i].__mro__ if c in w.model.idx and spec["classes"][w.model.idx[c]].get(inl)]
+                    kind = "undefined" if not definers else "own" if definers[0] == i else "inherited"
+                    if definers and definers[0] != i and len(definers) >= 2:
+                        kind = "inherited, nearest definer shadows a farther one"
+                        shadow = True
+                    agg.expected[kind] += 1
+            if shadow:  # the answer for some class depends on *which* ancestor is consulted
+                agg.nontrivial += 1
+        for pos, (c, kind) in enumerate(seq_):
+            done = seq_[:pos + 1]  # the visits so far (the shortest history that shows a problem)
+            for attr, via in A_KINDS[kind]:
+                obs = access(w, c, attr, via)
+                agg.transitions += 1
+                agg.validated += 1
+                agg.observe((c, attr, obs))
+                if verbose:
+                    print(f"  visit class {c} ({kind}): {attr} via {via}: {obs}")
+                problem = w.model.check(c, attr, obs)
+                if problem is None and (c, attr) in first and first[(c, attr)][0] != obs:
+                    problem = ("access-order", f"{attr} of class {c} is {obs[1:]} after the visits {done} but "
+                                               f"{first[(c, attr)][0][1:]} after the visits {first[(c, attr)][1]}")
+                first.setdefault((c, attr), (obs, done))
+                if problem:
+                    seqs_out = [done] if problem[0] != "access-order" else [first[(c, attr)][1], done]
+                    agg.fail(f"A/{problem[0]}/{attr}", f"[A] visits {done}: {problem[1]} -- {describe(spec)}",
+                             {"part": "A", "idx": idx, "spec": spec, "seqs": seqs_out})
+                    w.close()
+                    return False
+        w.close()
+    return True
+
+
+def _worker_access(w, W, payload):
+    tier, mark = payload
+    agg = par.Agg()
+    for idx, (spec, n, mode) in enumerate(a_stream(mark, tier)):
+        if idx % W != w:
+            continue
+        ok = run_access_case(agg, idx, spec, a_visit_seqs(n, mode))
+        agg.extra["a_visit_sequences"] += sum(1 for _ in a_visit_seqs(n, mode))
+        if ok and idx % 97 == 0:
+            agg.sample({"part": "A", "spec": spec, "seqs": list(itertools.islice(a_visit_seqs(n, mode), 1, 2))})
+        if len(agg.failures) >= 40:
+            break
+    if World.last:
+        World.last.close()
+    return agg
+
+
 # ------------------------------------------------------------------ part H: access histories (SEQ)
 def h_ops(n):
     ops = []
@@ -1143,7 +1271,8 @@ def run(ctx):
         ev.rule = (
             "ENUM x SEQ: every hierarchy of the bounded alphabet is built from fresh real classes once per access order; "
             "non-trivial = hierarchies in which some class merges >= 2 classes or extend != True (S, L, F), some class takes a "
-            "pair member from another class / must be rejected (P), lazy-resolution states beyond the initial one (H)"
+            "pair member from another class / must be rejected (P), some class inherits a pair member whose nearest definer shadows "
+            "a farther one (A), lazy-resolution states beyond the initial one (H)"
         )
         quick = tier == "quick"
         agg = par.run_sharded(_worker_media, ("S", tier, mark))
@@ -1155,17 +1284,35 @@ def run(ctx):
             "n=6": None if quick else "single-sink, <=2 bases, all classes with files, <=1 class without Media, <=1 extend False; orders: ascending, sink first, descending",
         })
         agg = par.run_sharded(_worker_media, ("L", tier, mark))
-        _merge(ctx, "L_lists", agg, {"pool": 2 if quick else 3, "list_len": 2, "n": "2..3 all shapes, extend True / lists <= 2" + ("" if quick else "; n=4 single-sink <=2 bases, pool 2")})
+        _merge(ctx, "L_lists", agg, {
+            "pool": 2 if quick else 3, "list_len": 2, "n": "2..3 all shapes, extend True / lists <= 2",
+            "n=4": ("single-sink <= 2 bases, one creation order per hierarchy (12 shapes), extend True, pool 3 modulo renaming of the pool, "
+                    "orders: ascending + descending" if quick else
+                    "single-sink <= 2 bases (20 shapes), extend True: pool 2 (all list tuples, sink first) + pool 3 modulo renaming of the pool "
+                    "(ascending + descending)"),
+        })
         agg = par.run_sharded(_worker_media, ("F", tier, mark))
         _merge(ctx, "F_forms", agg, {"js_forms": 5, "css_forms": 11, "n": "1, parent x child x extend"})
         agg = par.run_sharded(_worker_pairs, (tier, mark))
         _merge(ctx, "P_pairs", agg, {"full_product_n": 2, "per_pair_product_n": 3 if quick else 4, "both": "n<=3, every position x pair"})
+        agg = par.run_sharded(_worker_access, (tier, mark))
+        _merge(ctx, "A_partial_access_orders", agg, {
+            "reads_per_visit": "one of {3 inline members on the class, 3 *_file members on the class, 3 inline members on an instance}",
+            "n=3": "all shapes x 3^3 pair states x all 3! class orders (every prefix = every ordered subset) x "
+                   + ("all 3^3 kind assignments (chain) / one kind throughout (other shapes)" if quick else "all 3^3 kind assignments"),
+            "n=4": "chain x 3^4 states x all 4! orders x one kind throughout" if quick else
+                   "chain x 3^4 states x 4! orders x all 3^4 kind assignments; every other single-sink shape (<= 2 bases) x one kind throughout",
+            "n=5": None if quick else "chain x 3^5 states x all 5! orders x one kind throughout",
+        })
         agg = par.run_sharded(_worker_hist, (tier, mark))
         _merge(ctx, "H_histories", agg, {"n": 2 if quick else 3, "ops_per_class": 11, "search": "BFS to fixpoint + unmerged depth 2"})
         ev.assumptions = [
             "classes that are unrelated by bases / extend do not influence each other beyond media_cache (keyed by class): n = 5, 6 only single-sink shapes",
             "file names are plain str; a path next to the component module may be reported relative to the components dir",
             "a class without own Media under multiple inheritance is accepted under either reading (docstring)",
+            "part L, n = 4: renaming the files of the shared pool, and (quick) creating unrelated classes in another order, does not change "
+            "the behaviour - one representative per orbit, rotated by VERIF_SEED; thorough enumerates every creation order",
+            "part A reads the three members of one kind per visit; single-attribute interleavings are part H (n <= 2, n = 3 in thorough)",
             "part H merges histories by the visible lazy-resolution state; soundness of the merge is cross-checked by an unmerged search to depth 2",
         ]
     finally:
@@ -1193,6 +1340,8 @@ def replay(ctx, case):
             ok = run_pair_case(agg, case.get("idx", 0), spec, verbose=True)
         elif part == "PB":
             ok = run_both_case(agg, case.get("idx", 0), spec, case["k"], case["inl"], verbose=True)
+        elif part == "A":
+            ok = run_access_case(agg, case.get("idx", 0), spec, case["seqs"], verbose=True)
         elif part == "H":
             solo = {}
             for attr, i, via in h_ops(len(spec["classes"])):
